@@ -137,8 +137,6 @@ impl<T: NodeProcessor + Scope> NodeVisitor<T> for ScopeVisitor {
     fn visit_local_function(statement: &mut FunctionAssignment, scope: &mut T) {
         scope.process_local_function_statement(statement);
 
-        scope.insert_local_function(statement);
-
         for r#type in statement
             .iter_mut_parameters()
             .filter_map(TypedIdentifier::mutate_type)
@@ -153,6 +151,8 @@ impl<T: NodeProcessor + Scope> NodeVisitor<T> for ScopeVisitor {
         if let Some(return_type) = statement.mutate_return_type() {
             Self::visit_function_return_type(return_type, scope);
         }
+
+        scope.insert_local_function(statement);
 
         scope.push();
         statement
@@ -349,8 +349,6 @@ impl<T: NodeProcessor + NodePostProcessor + Scope> NodePostVisitor<T> for ScopeP
     fn visit_local_function(statement: &mut FunctionAssignment, scope: &mut T) {
         scope.process_local_function_statement(statement);
 
-        scope.insert_local_function(statement);
-
         for r#type in statement
             .iter_mut_parameters()
             .filter_map(TypedIdentifier::mutate_type)
@@ -365,6 +363,8 @@ impl<T: NodeProcessor + NodePostProcessor + Scope> NodePostVisitor<T> for ScopeP
         if let Some(return_type) = statement.mutate_return_type() {
             Self::visit_function_return_type(return_type, scope);
         }
+
+        scope.insert_local_function(statement);
 
         scope.push();
         statement
